@@ -417,6 +417,83 @@ def r06_7(ctx: Ctx):
     return obs
 
 
+def r06_8(ctx: Ctx):
+    """R06.8 engines with a self-stop predicate (cma's stop()) consult it, freshly, after every generation and stop on it."""
+    obs = []
+    found = 0
+    for ci in ctx.concrete_demes():
+        f = ctx.prog.lookup_method(ci, "run_metaepoch")
+        selfn = f.self_name()
+        # engine attribute with an external strategy object that has ask/tell
+        tells = [c for c in body_walk(f.node) if isinstance(c, ast.Call) and isinstance(c.func, ast.Attribute) and c.func.attr == "tell" and is_self_attr(c.func.value, None, selfn)]
+        if not tells:
+            continue
+        eng = tells[0].func.value.attr
+        t = ctx.res.type_of(tells[0].func.value, f)
+        if t is None or t[0] != "ext":
+            continue
+        found += 1
+        cfg = ctx.cfg(f)
+        eval_nodes = [n for n in cfg.nodes if node_has_effect(ctx, f, n, "EVAL")]
+        viol = []
+        bad_calls = []
+
+        def is_stop_cond(n):
+            if n.kind != "cond" or n.ast is None:
+                return None
+            e = n.ast.value if isinstance(n.ast, ast.NamedExpr) else n.ast
+            if isinstance(e, ast.Call) and isinstance(e.func, ast.Attribute) and e.func.attr == "stop" and is_self_attr(e.func.value, eng, selfn):
+                if e.args or e.keywords:
+                    bad_calls.append(n)
+                    return None
+                return True
+            return None
+
+        def node_fn(n, s):
+            dirty, deact = s
+            if n in eval_nodes:
+                dirty = True
+            if n.ast is not None and any(c in tells for c in ast.walk(n.ast)) and dirty:
+                viol.append((n, s, "the next generation is told/sampled although the engine's stop() was not consulted after the previous one"))
+            if n.kind == "stmt":
+                v = active_store(n.ast, selfn)
+                if v is not None and isinstance(v, ast.Constant) and v.value is False:
+                    deact = True
+            return [(dirty, deact)]
+
+        def edge_fn(n, lab, s):
+            if is_stop_cond(n) and lab in (True, False):
+                if lab is True:
+                    return ("STOP", s[1])
+                return (False, s[1])
+            return s
+
+        at, exits, parent = typestate(cfg, [(False, False)], node_fn, edge_fn)
+        for n in bad_calls[:1]:
+            obs.append(ctx.ob("R06.8", f, n.stmt, status=VIOLATION, detail=f"{ci.name}: `{n.label}` passes arguments to the engine's stop(): the termination criteria are not re-evaluated (a cached verdict is read)", construct="stop-args"))
+        for n, s, msg in viol[:1]:
+            obs.append(ctx.ob("R06.8", f, n.stmt, status=VIOLATION, detail=f"{ci.name}: {msg}", witness=witness_path(cfg, parent, n.id, s), construct="stop-per-generation"))
+        for s in exits:
+            if s[0] is True and not s[1]:
+                obs.append(ctx.ob("R06.8", f, f.node, status=VIOLATION, detail=f"{ci.name}: a path leaves run_metaepoch after a generation without consulting the engine's own stop(): a terminated engine keeps its deme active", witness=witness_path(cfg, parent, cfg.exit.id, s), construct="stop-at-exit"))
+            if s[0] == "STOP" and not s[1]:
+                obs.append(ctx.ob("R06.8", f, f.node, status=VIOLATION, detail=f"{ci.name}: the engine reported stop() but the deme stays active", witness=witness_path(cfg, parent, cfg.exit.id, s), construct="stop-ignored"))
+        if not any(o.rule == "R06.8" and o.subject.endswith(ci.name + ".run_metaepoch") and o.status != OK for o in obs):
+            obs.append(ctx.ob("R06.8", f, f.node, detail=f"{ci.name}: self.{eng}.stop() consulted after every generation and before leaving; a true verdict deactivates", construct=f"{ci.name}:engine-stop"))
+    if found == 0:
+        raise AnalysisError("no deme with an ask/tell engine found (CMADeme confirmed by hand)")
+    return obs
+
+
+def r06_9(ctx: Ctx):
+    """R06.9 every engine observes the GSC after each of its generations (shared engine typestate of R05.4): a deme that never looks stays active when the run stops."""
+    out = []
+    for o in c05.r05_4(ctx):
+        o.rule = "R06.9"
+        out.append(o)
+    return out
+
+
 RULES = [
     ("R06.1", r06_1, 10),
     ("R06.2", r06_2, 5),
@@ -425,4 +502,6 @@ RULES = [
     ("R06.5", r06_5, 1),
     ("R06.6", r06_6, 10),
     ("R06.7", r06_7, 1),
+    ("R06.8", r06_8, 1),
+    ("R06.9", r06_9, 7),
 ]
